@@ -38,6 +38,26 @@ fn gen_instant(r: &mut Rng) -> (NaiveDateTime, &'static str) {
     }
 }
 
+thread_local! {
+    /// (expression text, holiday spec) of the value under test, to rebuild it with a bound
+    static CURRENT: std::cell::RefCell<Option<(String, HolSpec)>> = const { std::cell::RefCell::new(None) };
+}
+
+fn bounded_variant(_oh: &Oh, bound: Duration) -> Option<Oh> {
+    CURRENT.with(|c| {
+        let c = c.borrow();
+        let (text, hol) = c.as_ref()?;
+        match guarded(|| opening_hours::OpeningHours::parse(text)) {
+            Ok(Ok(oh)) => Some(oh.with_context(hol.context().approx_bound_interval_size(bound))),
+            _ => None,
+        }
+    })
+}
+
+fn set_current(text: &str, hol: &HolSpec) {
+    CURRENT.with(|c| *c.borrow_mut() = Some((text.to_string(), hol.clone())));
+}
+
 fn outside(t: NaiveDateTime) -> bool {
     t < stream::date_start() || t >= stream::date_end()
 }
@@ -73,6 +93,21 @@ pub fn check(oh: &Oh, ast: Option<&OpeningHoursExpression>, t: NaiveDateTime, ho
             // continues into 1900: fine as long as 1900-01-01 00:00 is closed too (checked pointwise)
         }
     }
+    // d'. the same containment with an interval-size bound in the context (the bound makes the
+    // iterator report "until the end of time" for long intervals: that must still be clamped to
+    // the requested window). Only containment is judged here, the approximation itself is C16's.
+    if r.chance(50) {
+        let bound = Duration::days(*r.pick(&[1i64, 2, 7, 31, 366])) + Duration::minutes(*r.pick(&[0i64, 0, 30]));
+        let far_to = t + Duration::days(r.range(1, 4000));
+        if let Some(oh_b) = bounded_variant(oh, bound) {
+            let ivs = stream::with_day_budget(40_000, || oh_b.iter_range(t, far_to).take(400).collect::<Vec<_>>()).map_err(|p| format!("iter_range({t}, {far_to}) with bound {bound} panicked: {p}"))?;
+            for iv in ivs.unwrap_or_default() {
+                if iv.range.start < t || iv.range.end > far_to.min(end) || iv.range.start >= iv.range.end {
+                    return Err(format!("with an interval-size bound of {} min, iter_range({t}, {far_to}) reports [{}, {}), outside [requested start, min(requested end, 10000-01-01)]", bound.num_minutes(), iv.range.start, iv.range.end));
+                }
+            }
+        }
+    }
     // e. iter_from: no interval ends beyond 10000-01-01, nothing from there on
     // (an expression that never changes but is not trivially constant walks day by day to 9999:
     // the step budget of hook H1 cuts that short, the claim is then left to the bounded checks)
@@ -102,6 +137,7 @@ pub fn check(oh: &Oh, ast: Option<&OpeningHoursExpression>, t: NaiveDateTime, ho
 fn report_failure(args: &Args, rep: &mut Report, ast: &OpeningHoursExpression, hol: &HolSpec, t: NaiveDateTime, horizon: i64, msg: &str) {
     let fails = |c: &OpeningHoursExpression| -> Option<String> {
         let oh = build(&render::plain(c), hol)?;
+        set_current(&render::plain(c), hol);
         let mut r = Rng::new(5, 0, 0);
         let mut st = PointwiseStats::default();
         check(&oh, Some(c), t, horizon, &mut r, &mut st).err()
@@ -132,6 +168,7 @@ pub fn run(args: &Args, rep: &mut Report) {
             continue;
         };
         coverage_of(&case.ast, rep);
+        set_current(&case.text, &hol);
         for _ in 0..2 {
             let (t, class) = gen_instant(&mut r);
             rep.evaluations += 1;
@@ -178,9 +215,17 @@ pub fn replay(args: &Args, case: &Value, rep: &mut Report) {
         return;
     };
     let ast = lib_parse(&text).ok();
-    let mut r = Rng::new(5, 0, 0);
+    set_current(&text, &hol);
     let mut st = PointwiseStats::default();
-    if let Err(msg) = check(&oh, ast.as_ref(), t, horizon, &mut r, &mut st) {
+    let mut res = Ok(());
+    for k in 0..8 {
+        let mut r = Rng::new(5, 0, k);
+        res = check(&oh, ast.as_ref(), t, horizon, &mut r, &mut st);
+        if res.is_err() {
+            break;
+        }
+    }
+    if let Err(msg) = res {
         let known = ast.as_ref().and_then(|a| known::explained_by(&args.known, a));
         rep.violation("date_range_bounds", format!("{text:?} [{}]: {msg}", hol.to_string()), case.clone(), known);
     }
